@@ -247,6 +247,8 @@ class Ctx:
             raise HarnessError(ABORTED[0])
         self._current = case
         self._hit = set()
+        if isinstance(case, dict) and case.get("child_env") and not os.environ.get("VERIF_IN_CHILD"):
+            return self._check_in_child(case)
         tz = case.get("tz") if isinstance(case, dict) else None
         old_tz = os.environ.get("TZ")
         if tz:
@@ -274,6 +276,42 @@ class Ctx:
                     os.environ["TZ"] = old_tz
                 time.tzset()
         return self._hit
+
+    def _check_in_child(self, case):
+        """A case that asks for a process environment which can only be set at interpreter start (locale, PYTHONUTF8, ...):
+        replayed in a child interpreter with that environment; its VIOLATION lines are absorbed here."""
+        import subprocess
+        import tempfile
+        env = dict(os.environ)
+        env.update({k: str(v) for k, v in case["child_env"].items()})
+        env["VERIF_IN_CHILD"] = "1"
+        env["VERIF_NO_EVIDENCE"] = "1"
+        fd, path = tempfile.mkstemp(prefix="verif_child_", suffix=".json")
+        try:
+            with os.fdopen(fd, "w") as f:
+                json.dump({"property": self.prop, "case": case}, f)
+            r = subprocess.run([sys.executable, os.path.join(ROOT, "pbt", "run.py"), self.prop, "--replay", path],
+                               capture_output=True, text=True, env=env, cwd=ROOT, timeout=600)
+        finally:
+            try:
+                os.remove(path)
+            except OSError:
+                pass
+            self._current = None
+        self.count("cases_replayed_in_a_child_interpreter")
+        self.record({"child_env": case["child_env"], "case_keys": sorted(k for k in case if k != "child_env")}, True, "child_interpreter")
+        if r.returncode not in (0, 1):
+            raise HarnessError("child interpreter failed on %s\n%s" % (canon(case)[:1000], (r.stdout + r.stderr)[-2000:]))
+        hit = set()
+        for line in r.stdout.splitlines():
+            if line.startswith("VIOLATION ") or line.startswith("KNOWN-FINDING"):
+                b = line.split("bucket=", 1)[1].split(" ", 1)[0] if "bucket=" in line else line.split("key=", 1)[1].split(" ", 1)[0]
+                detail = line.split("detail=", 1)[1] if "detail=" in line else None
+                self._current = case
+                self.violation(b, {"child_env": case["child_env"], "child_detail": (detail or "")[:400]}, case)
+                self._current = None
+                hit.add(b)
+        return hit
 
     # ------------------------------------------------------------- hypothesis
     def drive(self, strategy, max_examples, fn=None, salt=0, label=None):
